@@ -1,15 +1,15 @@
-\* refinement, exhaustive: 3 keys, 1 wrapper, 1 open iterator interleaved with writes, few ranges
+\* refinement, exhaustive: 3 keys, 1 wrapper, 1 open iterator (full range, both directions) interleaved with writes
 SPECIFICATION ISpecH
 CONSTANTS
   Keys <- K3
   Bounds <- BNone
-  OpenRanges <- OR3b
+  OpenRanges <- OR1
   BaseInit <- BaseA
   SetVals <- ValById
   MaxW = 1
   MaxDepth = 1
   MaxIt = 1
-  BaseOps = TRUE
+  BaseOps = FALSE
   HistLen = 0
   Probe = FALSE
 VIEW IViewVars
